@@ -221,8 +221,29 @@ impl Osc {
     }
 }
 
+/// the read-only clock underneath an `OverlayClock`: the raw, never adjusted oscillator
+pub struct RawUnder(pub Rc<std::cell::Cell<Time>>);
+impl Clock for RawUnder {
+    type Error = ClockFail;
+    fn now(&self) -> Time {
+        self.0.get()
+    }
+    fn step_clock(&mut self, _o: Duration) -> Result<Time, ClockFail> {
+        panic!("harness: the overlay clock must not adjust the underlying clock")
+    }
+    fn set_frequency(&mut self, _p: f64) -> Result<Time, ClockFail> {
+        panic!("harness: the overlay clock must not adjust the underlying clock")
+    }
+    fn set_properties(&mut self, _t: &TimePropertiesDS) -> Result<(), ClockFail> {
+        Ok(())
+    }
+}
+
 #[derive(Default)]
 pub struct ClockCore {
+    /// with an oscillator: the node's clock is statime's `OverlayClock` over the raw oscillator
+    /// (the daemon's virtual-system-clock set-up) instead of a directly adjustable oscillator
+    pub overlay: Option<(statime::OverlayClock<RawUnder>, Rc<std::cell::Cell<Time>>)>,
     /// None: a perfect clock whose reading the harness sets directly
     pub osc: Option<Osc>,
     pub now: Time,
@@ -249,11 +270,16 @@ impl SimClock {
     /// true time has advanced: update the reading (oscillator model) or set it (perfect clock)
     pub fn advance_to(core: &Rc<RefCell<ClockCore>>, true_ns: u64) {
         let mut k = core.borrow_mut();
+        let k = &mut *k;
         match &mut k.osc {
             Some(o) => {
                 o.true_ns = true_ns;
                 let l = o.local(true_ns).max(0) as u128;
                 k.now = time_bits(l);
+                if let Some((ov, cell)) = &k.overlay {
+                    cell.set(time_bits(l));
+                    k.now = ov.now();
+                }
             }
             None => k.now = time_ns(true_ns),
         }
@@ -271,6 +297,19 @@ impl SimClock {
         k.calls += 1;
         let fail = k.fail_all || k.fail_calls.contains(&n);
         let tag = self.tag;
+        if !fail && k.overlay.is_some() {
+            let k = &mut *k;
+            let (ov, _) = k.overlay.as_mut().unwrap();
+            // what the overlay returns is what the servo gets
+            let ret = match &c {
+                ClockCmd::SetFreq(p) => ov.set_frequency(*p),
+                ClockCmd::Step(d) => ov.step_clock(*d),
+                ClockCmd::SetProps => Ok(ov.now()),
+            };
+            k.now = ov.now();
+            k.log.push((tag, c, ret.is_ok()));
+            return ret;
+        }
         if !fail {
             if let Some(o) = &mut k.osc {
                 o.reanchor();
